@@ -52,6 +52,7 @@ def check(seed, tier):
         return None
     core.canary(rep, TRACE_SPEC, meta["files"][0], mutate2, n=40)
     rep.traces, rep.events = meta["cases"], meta["events"]
+    core.keep_cli_inputs(rep)
     shutil.rmtree(os.path.join(core.BUILD, "cli_inputs", "C21"), ignore_errors=True)
     return rep.finish("exploration", {
         "distinct_nontrivial": meta["distinct_nontrivial"],
